@@ -28,7 +28,7 @@ SEQ = {
                      "non-trivial = a write, a validated reuse and an execution in one history"),
     "C03": dict(mc=["core", "dur", "untracked", "lru"], families=["core", "dur", "untracked", "lru", "struct", "mixed"], needs=["op:set", "dv", "we", "eq"],
                 rule="non-trivial = history with a write, a reuse, a re-execution and a backdating comparison"),
-    "C04": dict(mc=["untracked"], families=["untracked"], scale=3, needs=["op:cell", "we", "dv"],
+    "C04": dict(mc=["untracked"], families=["untracked", "mixed"], scale=3, needs=["op:cell", "we", "dv"],
                 rule="untracked family: cells read with report_untracked_read, changed together with synthetic writes; "
                      "non-trivial = a cell change, an execution and a reuse"),
     "C05": dict(mc=["lru"], families=["lru"], needs=["op:get", "drop", "we"],
@@ -44,7 +44,7 @@ SEQ = {
                      "and a write in one history"),
     "C09": dict(families=["churn", "reclaim", "intern"], internmc=True, needs=["int", "irec", "op:set"],
                 rule="interned types with revisions=1,2,3,MAX; non-trivial = interning, an active-revision record and a write"),
-    "C10": dict(families=["spec"], needs=["spec", "new", "op:set"],
+    "C10": dict(families=["spec", "mixed"], needs=["spec", "new", "op:set"],
                 rule="spec family: creators that specify / call the specifiable function in both orders; "
                      "non-trivial = a specify, a struct creation and a write"),
     "C11": dict(families=["accum", "accchain", "accumlru"], scale=2, needs=["op:accum", "accv", "op:set"],
